@@ -377,8 +377,12 @@ PROPS = {
                     "refutation witnesses in Props/C13.v, recorded as known findings"],
     },
     "C14": {
-        "class_prefixes": ["c14-", "harness-crash"],
+        "class_prefixes": ["c14-", "harness-crash", "c12-panic"],
         "subs": [
+            {"name": "c12", "n_quick": 400, "n_thorough": 8000, "model": "coq/Conn/Lifecycle.v",
+             "rule": "the connection scripts of C12 (local open / close / close_with_error / drop against peer header, open, close with and without error, EOF, "
+                     "illegal frames); here: teardown calls repeated after the connection has failed (a second close() after a close that reported the "
+                     "peer's error or a transport error) return an error and never panic (class c12-panic)"},
             {"name": "cutm", "n_quick": 200, "n_thorough": 2000, "model": "coq/Conn/Failure.v",
              "rule": "the cut cases whose trigger is inside the model's alphabet (pipes > 256 bytes, injection positions that are not themselves protocol errors), abstracted to the "
                      "model's events: the application calls of the four tasks in the order in which they were issued, the peer's frames as the client read them, the failure "
